@@ -1,11 +1,14 @@
 #!/bin/bash
-# usage: try_mutant.sh <ID> <patch.diff> [tier]   — applies the patch to /repo, runs the check, reverts.
-ID=$1; PATCH=$2; TIER=${3:-quick}
-cd /repo || exit 9
-if ! git diff --quiet; then echo "/repo is dirty; refusing"; exit 9; fi
-git apply "$PATCH" || { echo "patch does not apply"; exit 9; }
+# usage: try_mutant.sh <ID> <patch.diff> [tier]
+# Applies the patch to a scratch worktree of /repo's HEAD (never to /repo itself, which other
+# runs may be using), runs the check against it via VERIF_REPO, removes the worktree.
+ID=$1; PATCH=$(readlink -f "$2"); TIER=${3:-quick}
+WT=$(mktemp -d /tmp/mut-XXXXXX); rmdir "$WT"
+git -C /repo worktree add -q --detach "$WT" HEAD || exit 9
+if ! git -C "$WT" apply "$PATCH"; then echo "patch does not apply"; git -C /repo worktree remove --force "$WT"; exit 9; fi
 cd /verif
-out=$(./check "$ID" "$TIER" 2>&1); rc=$?
-git -C /repo checkout -- .
+mkdir -p /tmp/mut-evidence
+out=$(VERIF_REPO="$WT" VERIF_EVIDENCE_DIR=/tmp/mut-evidence ./check "$ID" "$TIER" 2>&1); rc=$?
+git -C /repo worktree remove --force "$WT"; git -C /repo worktree prune
 echo "exit=$rc"
 echo "$out" | grep -E "key=|KNOWN|INCONCL|BUILD|seed=" | cut -c1-220 | head -${LINES_MAX:-12}
